@@ -126,13 +126,13 @@ class Engine:
     def close(self):
         shutil.rmtree(self.scratch, ignore_errors=True)
 
-    def run_fake(self, sc, order, args, explicit=(), config=None, faults=None, extra=None, timeout=60, extra_args=None):
+    def run_fake(self, sc, order, args, explicit=(), config=None, faults=None, extra=None, timeout=60, extra_args=None, env=None):
         resolve = {sp: x for sp, x in explicit}
         j = sc.fakegit_json(order, config=config, resolve=resolve, faults=faults, extra=extra)
         self.n += 1
         cli = list(extra_args if extra_args is not None else ["--json", "--json-version=1", "--no-progress"]) + list(args) + \
             [sp for sp, _ in explicit]
-        return S.run_with_fakegit(self.bins, self.scratch, j, cli, tag="c%d" % self.n, timeout=timeout)
+        return S.run_with_fakegit(self.bins, self.scratch, j, cli, tag="c%d" % self.n, timeout=timeout, extra_env=env)
 
     def run_real(self, sc, args, explicit=(), packed=False, pack_refs=False, bare=False, extra_args=None, keep=False):
         self.n += 1
